@@ -6,6 +6,7 @@ from .. import hgen
 from ..hbase import STUBS
 from ..hlib import c08 as L
 from .common import BASE_ASSUMPTIONS, ROOT, Cond, Spec
+from ..runner import innermost as U
 
 
 def build(tier):
@@ -38,7 +39,7 @@ def build(tier):
     S, C = aioftp.Server, aioftp.Client
     return Spec(
         pid="C08", source=src, conds=conds,
-        functions_encoded=[S.pwd.__wrapped__, cli.BaseClient.parse_directory_response, C.get_current_directory, S.parse_command, S.get_paths, C.change_directory, C.make_directory, C.remove_directory, C.remove_file,
+        functions_encoded=[U(S.pwd), cli.BaseClient.parse_directory_response, C.get_current_directory, S.parse_command, S.get_paths, C.change_directory, C.make_directory, C.remove_directory, C.remove_file,
                            C.rename, C.upload_stream, C.append_stream, C.download_stream, C.stat, C.list, S.build_mlsx_string, cli.BaseClient.parse_mlsx_line, S.build_list_string,
                            cli.BaseClient.parse_list_line_unix, S.write_response, cli.BaseClient.parse_response],
         bounds={
